@@ -62,7 +62,7 @@ var (
 	c08CondFields = []string{"a", "b", "c", "http.status", "d", "zz", "root.a", "root.b", "root.http.status", "root.zz"}
 	c08Ints       = []int64{0, 1, -1, 2, 3, 10, 200, 404, 500, 1 << 53, 1<<53 + 1, 1<<63 - 1, -1 << 63, 1<<62 + 1}
 	c08Floats     = []float64{0.5, 1.5, -2.5, 200, 200.5, 1, 0, 3, 1e21, 1e-7, 0.1, 9007199254740992, 9223372036854775808, -9223372036854775808, 1.7976931348623157e308, 404}
-	c08Strings    = []string{"", "200", "404", "1.5", "abc", "ab", "b", "true", "false", "1", "0", "t", "<nil>", "007", "+5", "-3", " 5", "1e2", "0x10", "health", "/health/x", "[1 2]", "200.0", "9223372036854775808", "map[k:1]", "T", "a,b"}
+	c08Strings    = []string{"", "200", "404", "1.5", "abc", "ab", "b", "true", "false", "1", "0", "t", "<nil>", "007", "+5", "-3", " 5", "1e2", "0x10", "health", "/health/x", "[1 2]", "200.0", "9223372036854775808", "map[k:1]", "T", "a,b", "TrUe", "tRUE", "False"}
 	c08Ops        = []string{"=", "!=", ">", "<", ">=", "<=", "starts-with", "contains", "does-not-contain", "exists", "not-exists", "has-root-span", "matches", "in", "not-in"}
 	c08Dts        = []string{"", "", "string", "int", "float", "bool"}
 	c08Patterns   = []string{"abc", "^ab", "b$", "^200$", "", "^", "health", "^/health", "0", "(", "[a", "*a", "^1", "nil"}
@@ -177,7 +177,7 @@ func c08GenCond(r *rand.Rand, pool []c08Pooled) c08Cond {
 		c.Field, c.Fields = "", nil
 		switch r.Intn(6) {
 		case 0:
-			c.Val = rvVal{K: "s", S: []string{"true", "1", "yes", "false", "T"}[r.Intn(5)]}
+			c.Val = rvVal{K: "s", S: []string{"true", "1", "yes", "false", "T", "TrUe", "True"}[r.Intn(7)]}
 		case 1:
 			c.Val = rvVal{K: "int", I: int64(r.Intn(2))}
 		default:
@@ -246,7 +246,52 @@ func c08GenCond(r *rand.Rand, pool []c08Pooled) c08Cond {
 // chosen RELATIVE to the span value as coerced by the datatype (equal / just below / just above,
 // in a random representation), so that every (datatype, operator) arm is exercised at its
 // boundary.  One third of all cases.
+// c08GenVirtual: the virtual field ?.NUM_DESCENDANTS compared with the span count itself and its
+// neighbours, in every representation and datatype; also named inside Fields, where it is NOT
+// virtual (GetComputedField only looks at Field).
+func c08GenVirtual(r *rand.Rand) c08Input {
+	in := c08Input{Seed: int64(1 + r.Intn(1_000_000)), TraceID: fmt.Sprintf("trace-%d", r.Intn(1000)), Root: -1}
+	n := 1 + r.Intn(5)
+	for k := 0; k < n; k++ {
+		var sp []c08Field
+		if r.Intn(2) == 0 {
+			sp = append(sp, c08Field{K: "a", V: c08PickScalar(r, false)})
+		}
+		in.Spans = append(in.Spans, sp)
+	}
+	if r.Intn(2) == 0 {
+		in.Root = r.Intn(n)
+	}
+	want := int64(n + r.Intn(3) - 1)
+	var cv rvVal
+	switch r.Intn(3) {
+	case 0:
+		cv = rvVal{K: "int", I: want}
+	case 1:
+		cv = rvVal{K: "f", F: float64(want)}
+	default:
+		cv = rvVal{K: "s", S: strconv.FormatInt(want, 10)}
+	}
+	c := c08Cond{Field: "?.NUM_DESCENDANTS", Op: []string{"=", "!=", ">", "<", ">=", "<=", "=", ">=", "in", "not-in"}[r.Intn(10)],
+		Dt: []string{"int", "int", "", "float", "string"}[r.Intn(5)], Val: cv}
+	if c.Op == "in" || c.Op == "not-in" {
+		c.Val = rvVal{K: "list", L: []rvVal{cv, {K: "int", I: 77}}}
+	}
+	if r.Intn(6) == 0 {
+		c.Field, c.Fields = "", []string{"?.NUM_DESCENDANTS", "a"}
+	}
+	ru := c08Rule{Name: "size", Rate: 1, Drop: r.Intn(2) == 0, Scope: []string{"", "span", "trace"}[r.Intn(3)], Conds: []c08Cond{c}}
+	if r.Intn(3) == 0 {
+		ru.Conds = append(ru.Conds, c08Cond{Op: "has-root-span", Val: rvVal{K: "b", B: r.Intn(2) == 0}})
+	}
+	in.Rules = []c08Rule{ru}
+	return in
+}
+
 func c08GenFocused(r *rand.Rand) c08Input {
+	if r.Intn(8) == 0 {
+		return c08GenVirtual(r)
+	}
 	in := c08Input{Seed: int64(1 + r.Intn(1_000_000)), TraceID: fmt.Sprintf("trace-%d", r.Intn(1000)), Root: -1}
 	sv := c08PickScalar(r, false)
 	dt := []string{"", "string", "int", "float", "bool"}[r.Intn(5)]
@@ -345,12 +390,14 @@ func c08GenFocused(r *rand.Rand) c08Input {
 			cv = rvVal{K: "s", S: s}
 		}
 	default: // bool
-		cv = []rvVal{{K: "b", B: true}, {K: "b", B: false}, {K: "s", S: "true"}, {K: "s", S: "1"}, {K: "int", I: 1}, {K: "int", I: 0}, {K: "s", S: "yes"}, {K: "f", F: 1}}[r.Intn(8)]
+		cv = []rvVal{{K: "b", B: true}, {K: "b", B: false}, {K: "s", S: "true"}, {K: "s", S: "1"}, {K: "int", I: 1}, {K: "int", I: 0}, {K: "s", S: "yes"}, {K: "f", F: 1}, {K: "s", S: "TrUe"}, {K: "s", S: "TRUE"}}[r.Intn(10)]
 	}
 	if op == "matches" {
 		cv = rvVal{K: "s", S: c08Patterns[r.Intn(len(c08Patterns))]}
 	}
-	if op == "in" || op == "not-in" {
+	if (op == "in" || op == "not-in") && r.Intn(2) == 0 && (cv.K == "s" || cv.K == "int" || cv.K == "f" || cv.K == "b") {
+		// a single scalar instead of a list (string / int / float64 are accepted, anything else is an error)
+	} else if op == "in" || op == "not-in" {
 		l := rvVal{K: "list", L: []rvVal{}}
 		for k, n := 0, r.Intn(3); k < n; k++ {
 			l.L = append(l.L, c08PickScalar(r, true))
